@@ -16,7 +16,7 @@ import (
 func init() {
 	register(Property{
 		ID:          "C09",
-		Explanation: "Decided statically on the two scanning closures (anchor: function literals that assign a local from text/scanner.(*Scanner).Next) and the small snippet constructors: R1 cursor discipline - no read of the cursor rune is reachable from an emit of it without an intervening Next() (a rune is never emitted and then dispatched again); R2 the rune that terminates a placeholder name is re-dispatched without reading the next one only when it is '@', and is emitted only when it is known not to be the apostrophe (so the apostrophe is consumed on every path, also for nil arguments); R3 every yielded value is the cursor rune or a fragment of an argument's own Frag - substituted text never flows back into a scanner; R4 the absent edge of the argument lookup reaches panic before any emit or return; R5 Sprintf verb table: %T -> ID / nested snippet, %v -> Value / nested snippet, %% -> the cursor, default -> panic, one argument consumed per %T/%v, missing argument -> panic; R6 the template format is pre-processed only by strings.TrimLeft(format, \"\\n\"); R7 Comment emits text only behind a constant starting with //, GoDirective starts with the constant //go: and guards arguments by len > 0, Snippets/Fragments yield the parts' own fragments in order, skipping only IsNil parts. R6 also covers the constructors (T, Sprintf, Block, ...): they store their arguments unchanged. R6 also: T stores every binding its argument sets yield (each iteration of the loop over Args() executes the keyed store); R7 also: no IsNil method iterates, calls or hands on a single-use receiver (an iterator function or channel): every rendering path asks IsNil before Frag. R3/R7 accept fragment forwarders (a function whose iterator yields nothing but the range values of its Snippet parameter's Frag) as the fragments of that snippet. NOT decided: full input/output string equality of rendering for all formats and bindings (needs execution or symbolic execution).",
+		Explanation: "Decided statically on the two scanning closures (anchor: function literals that assign a local from text/scanner.(*Scanner).Next) and the small snippet constructors: R1 cursor discipline - no read of the cursor rune is reachable from an emit of it without an intervening Next() (a rune is never emitted and then dispatched again); R2 the rune that terminates a placeholder name is re-dispatched without reading the next one only when it is '@', and is emitted only when it is known not to be the apostrophe (so the apostrophe is consumed on every path, also for nil arguments); R3 every yielded value is the cursor rune or a fragment of an argument's own Frag - substituted text never flows back into a scanner; R4 the absent edge of the argument lookup reaches panic before any emit or return; R5 Sprintf verb table: %T -> ID / nested snippet, %v -> Value / nested snippet, %% -> the cursor, default -> panic, one argument consumed per %T/%v, missing argument -> panic; R6 the template format is pre-processed only by strings.TrimLeft(format, \"\\n\"); R7 Comment emits text only behind a constant starting with //, GoDirective starts with the constant //go: and guards arguments by len > 0, Snippets/Fragments yield the parts' own fragments in order, skipping only IsNil parts. R6 also covers the constructors (T, Sprintf, Block, ...): they store their arguments unchanged. R6 also: T stores every binding its argument sets yield (each iteration of the loop over Args() executes the keyed store); R7 also: no IsNil method iterates, calls or hands on a single-use receiver (an iterator function or channel): every rendering path asks IsNil before Frag. R3/R7 accept fragment forwarders (a function whose iterator yields nothing but the range values of its Snippet parameter's Frag) as the fragments of that snippet. R5 also: the test of a Sprintf argument against Snippet decides alone; R6 also: a map-typed field of a constructed value is a map made in the constructor. NOT decided: full input/output string equality of rendering for all formats and bindings (needs execution or symbolic execution).",
 		Assumptions: commonAssumptions,
 		Run:         runC09,
 	})
@@ -465,12 +465,102 @@ func c09R5(p *core.Program, r *core.Report, sc *scanClosure) {
 	r.Floor(rule, 6)
 	info := sc.f.Info()
 	sw, clauses := switchOnConsts(info, sc.f.Body, 'T', 'v', '%')
+	// table form: `verbs := map[rune]func(any) Snippet{'T': ID, 'v': Value}; wrap, isVerb := verbs[c]; switch { case isVerb: …
+	// wrap(x) …; case c == '%': …; default: panic }` - the verbs that take an argument are the table's keys, what a plain
+	// argument is wrapped with is the table's value for the verb
+	var tableWrap *types.Var           // the looked-up constructor
+	tableOf := map[int64]string{}      // verb -> constructor name
+	if sw == nil {
+		var tableVar, okVar *types.Var
+		ast.Inspect(sc.f.Body, func(n ast.Node) bool {
+			as, isAs := n.(*ast.AssignStmt)
+			if !isAs || len(as.Lhs) != 1 || len(as.Rhs) != 1 {
+				return true
+			}
+			cl, isLit := ast.Unparen(as.Rhs[0]).(*ast.CompositeLit)
+			if !isLit {
+				return true
+			}
+			mt, isMap := info.TypeOf(cl).Underlying().(*types.Map)
+			if !isMap {
+				return true
+			}
+			if _, isFn := mt.Elem().Underlying().(*types.Signature); !isFn {
+				return true
+			}
+			tv := core.VarOf(info, as.Lhs[0])
+			if tv == nil || len(core.DefsOf(info, sc.f.Body, tv)) != 1 {
+				return true
+			}
+			okTable := true
+			for _, el := range cl.Elts {
+				kv, isKV := el.(*ast.KeyValueExpr)
+				if !isKV {
+					okTable = false
+					continue
+				}
+				k, isC := core.ConstInt(info, kv.Key)
+				fn, _ := info.ObjectOf(identOf(kv.Value)).(*types.Func)
+				if !isC || fn == nil || fn.Pkg() == nil || core.RelPkg(fn.Pkg().Path()) != "pkg/gengo/snippet" {
+					okTable = false
+					continue
+				}
+				tableOf[k] = fn.Name()
+			}
+			if okTable {
+				tableVar = tv
+			}
+			return true
+		})
+		if tableVar != nil {
+			ast.Inspect(sc.f.Body, func(n ast.Node) bool {
+				as, isAs := n.(*ast.AssignStmt)
+				if !isAs || len(as.Lhs) != 2 || len(as.Rhs) != 1 {
+					return true
+				}
+				if ix, isIx := ast.Unparen(as.Rhs[0]).(*ast.IndexExpr); isIx && core.VarOf(info, ix.X) == tableVar && core.VarOf(info, ix.Index) == sc.cursor {
+					tableWrap, okVar = core.VarOf(info, as.Lhs[0]), core.VarOf(info, as.Lhs[1])
+				}
+				return true
+			})
+		}
+		if tableWrap != nil && okVar != nil {
+			ast.Inspect(sc.f.Body, func(n ast.Node) bool {
+				ss, isSw := n.(*ast.SwitchStmt)
+				if !isSw || ss.Tag != nil || sw != nil {
+					return true
+				}
+				cs := map[int64]*ast.CaseClause{}
+				for _, c := range ss.Body.List {
+					cc := c.(*ast.CaseClause)
+					for _, e := range cc.List {
+						if core.VarOf(info, e) == okVar {
+							for k := range tableOf {
+								cs[k] = cc
+							}
+						}
+						if b, isB := ast.Unparen(e).(*ast.BinaryExpr); isB && b.Op == token.EQL && core.VarOf(info, b.X) == sc.cursor && constIs(info, b.Y, '%') {
+							cs['%'] = cc
+						}
+					}
+				}
+				if cs['T'] != nil && cs['v'] != nil && cs['%'] != nil {
+					sw, clauses = ss, cs
+				}
+				return true
+			})
+		}
+	}
 	if sw == nil {
 		r.Anchor(rule, "verb switch with cases 'T', 'v', '%' in (*printer).Frag")
 		return
 	}
 	// the verb switch is inside the '%' arm of the outer dispatch and switches on the cursor
-	r.Check(core.VarOf(info, sw.Tag) == sc.cursor, rule, sc.f, "verb switch dispatches on the cursor", sw.Pos(), "tag is the cursor", "the verb switch does not switch on the rune read after '%'")
+	if tableWrap != nil {
+		r.Check(len(tableOf) == 2 && tableOf['T'] == "ID" && tableOf['v'] == "Value", rule, sc.f, "verb switch dispatches on the cursor", sw.Pos(), "the verb table is {'T': ID, 'v': Value} and is looked up with the cursor", "the table of verbs is not exactly {'T': ID, 'v': Value}")
+	} else {
+		r.Check(core.VarOf(info, sw.Tag) == sc.cursor, rule, sc.f, "verb switch dispatches on the cursor", sw.Pos(), "tag is the cursor", "the verb switch does not switch on the rune read after '%'")
+	}
 	// getArg closure
 	var getArg *types.Var
 	var getArgLit *ast.FuncLit
@@ -596,6 +686,10 @@ func c09R5(p *core.Program, r *core.Report, sc *scanClosure) {
 	}{{'T', "ID", "Value"}, {'v', "Value", "ID"}} {
 		cc := clauses[int64(verb.c)]
 		ok := refers(cc, verb.want) && !refers(cc, verb.no) && countCalls(cc, getArg) == 1
+		if tableWrap != nil {
+			// table form: the arm wraps with the constructor looked up for the verb, and names neither constructor itself
+			ok = tableOf[int64(verb.c)] == verb.want && countCalls(cc, tableWrap) >= 1 && !refers(cc, "ID") && !refers(cc, "Value") && countCalls(cc, getArg) == 1
+		}
 		mixed = ""
 		snippetArm := assertsSnippet(cc, info, 0)
 		r.Check(mixed == "", rule, sc.f, fmt.Sprintf("%%%c: an argument that is a snippet is rendered as itself, whatever it renders", verb.c), cc.Pos(), "the test against Snippet decides alone",
